@@ -965,6 +965,7 @@ func runC17(c *kc.Ctx) {
 	c17HashEd(c)
 	c17HashOthers(c)
 	c17ResidueParams(c)
+	c17InPlaceData(c)
 }
 
 func init() { register("C17", "proof", runC17) }
